@@ -10,7 +10,7 @@ from ..core import CaseResult, jhash
 from ..lab import spec as S
 from ..lab.harness import Lab, session_problem
 from ..lab.history import Model, Obj
-from ..lab.oracle import compare_build
+from ..lab.oracle import compare_build, compare_closures
 from ..lab.ref import Ref
 
 LEVEL = 'exploration'
@@ -161,6 +161,9 @@ def run_multi_case(rng, res: CaseResult):
                 mi2 = rng.randrange(k)
                 more.append({'op': 'value', 'chain': 'mc', 'member': names[mi2], 'task': rng.choice(list(refs[mi2].tasks)), 'mi': mi2})
         steps = steps[:pos] + more + steps[pos:]
+    # closures asked of every member BY TASK OBJECT (tasks shared between members carry the full name of the member that created them)
+    for j in range(k):
+        steps.append({'op': 'inspect', 'chain': 'mc', 'member': names[j], 'what': 'deps', 'mi': j})
     witness = {'spec': spec, 'roots': roots, 'steps': [{kk: v for kk, v in s.items() if kk not in ('roots', 'root')} for s in steps]}
     with Lab(spec) as lab:
         r = lab.run(steps)
@@ -301,6 +304,16 @@ def run_multi_case(rng, res: CaseResult):
             for i in range(k):
                 objs = model.closure(chains[i], st['tasks'])
                 model.force(chains[i], objs, bool(st.get('delete_data')))
+        elif st['op'] == 'inspect':
+            mi = st['mi']
+            res.count('member_closures_checked')
+            if not o['ok']:
+                res.violate(f'{here}: required_tasks / dependent_tasks of member `{names[mi]}` raised {o.get("exc")}: {o.get("msg")}', witness=witness, facts={'tag': 'member_closures'})
+                return
+            # (observed names are full names of the objects; identity classes of the member's own snapshot decide)
+            for d in compare_closures(refs[mi], {'snapshot': members[names[mi]]}, o):
+                res.violate(f'member chain `{names[mi]}`: {d["what"]}', witness=witness, facts={'tag': 'member_closures'})
+                return
         elif st['op'] == 'snapshot':
             if not o['ok']:
                 continue
